@@ -585,3 +585,30 @@ Theorem c09_code_rtnext_ext_pass : forall m rho tr idx sh h buf a mx nb rs F,
       rho' "iterator->current_namespace" = rho "iterator->current_namespace".
 Proof. exact rtnext_code_ext_pass. Qed.
 Print Assumptions c09_code_rtnext_ext_pass.
+
+(* an undefined field number in the radiotap namespace: -ENOENT from the default group of the first switch; and a present bit while NO
+   namespace is current: align = 0, _arg := _next_ns_data, goto next_entry out of an `if` inside the first switch, past the rest of
+   the loop body, into the default group of the second switch (Proofs/CodeRadiotapNextSkip.v) *)
+From LW Require Import Proofs.CodeRadiotapNextSkip.
+Theorem c09_code_rtnext_undefined_field : forall m rho tr idx sh rns F,
+  rho "iterator->_arg_index" = idx -> rho "iterator->_bitmap_shifter" = sh -> rho "iterator->current_namespace" = rns ->
+  rho "&radiotap_ns" = rns ->
+  rtap_n_bits <= idx < 2 ^ 31 -> idx mod 32 <> 29 -> idx mod 32 <> 30 -> idx mod 32 <> 31 -> 0 <= sh < 2 ^ 32 -> Z.odd sh = true ->
+  0 < rns < 2 ^ 62 -> load_le m (rns + 8) 4 = Some rtap_n_bits ->
+  exists rho', execg (40 + F) m rho tr body_ieee80211_radiotap_iterator_next = GReturned (Some (- ENOENT)) rho' tr.
+Proof. exact rtnext_code_undefined_field. Qed.
+Print Assumptions c09_code_rtnext_undefined_field.
+
+Theorem c09_code_rtnext_unknown_ns_skip : forall m rho tr idx sh nnd rns F,
+  rho "iterator->_arg_index" = idx -> rho "iterator->_bitmap_shifter" = sh -> rho "iterator->current_namespace" = 0 ->
+  rho "&radiotap_ns" = rns -> rho "iterator->_next_ns_data" = nnd ->
+  0 <= idx < 2 ^ 31 - 1 -> idx mod 32 <> 29 -> idx mod 32 <> 30 -> idx mod 32 <> 31 -> 0 <= sh < 2 ^ 32 -> Z.odd sh = true ->
+  0 < rns < 2 ^ 64 -> 0 <= nnd < 2 ^ 64 ->
+  exists rho', execg (40 + F) m rho tr body_ieee80211_radiotap_iterator_next =
+               execg (39 + F) m rho' tr body_ieee80211_radiotap_iterator_next /\
+    rho' "iterator->_arg" = nnd /\ rho' "iterator->current_namespace" = 0 /\
+    rho' "iterator->_bitmap_shifter" = Z.shiftr sh 1 /\ rho' "iterator->_arg_index" = idx + 1 /\
+    rho' "iterator->_max_length" = rho "iterator->_max_length" /\ rho' "iterator->_rtheader" = rho "iterator->_rtheader" /\
+    rho' "iterator->_next_bitmap" = rho "iterator->_next_bitmap" /\ rho' "iterator->_reset_on_ext" = rho "iterator->_reset_on_ext".
+Proof. exact rtnext_code_unknown_ns_skip. Qed.
+Print Assumptions c09_code_rtnext_unknown_ns_skip.
